@@ -3,24 +3,40 @@
 (*  "sandbox"  (C12) every single I/O action (names written literally and     *)
 (*             computed at run time), every pair of actions, and every triple *)
 (*             X(n); close(n); Y(n) on one name, under the 8 flag sets, with  *)
-(*             and without a custom open-file function;                       *)
+(*             and without a custom open-file function; and (Runs >= 2)       *)
+(*             SESSIONS: Runs Execute calls on one Interpreter, a short first *)
+(*             run (nothing / a file written / a file read) followed by a run *)
+(*             of one I/O action under a DIFFERENT configuration (Rich < 2:   *)
+(*             one flag or the custom open function flipped; Rich = 2: any,   *)
+(*             and two actions where one thing was flipped);                  *)
 (*  "delivery" (C13) every history of at most Depth actions, flags off,       *)
 (*             ending normally, by exit, or by a run-time error;              *)
-(*  "failure"  (C13) histories that write to standard output, with the        *)
-(*             writer failing at every byte offset, plain and buffered.       *)
-(* One JSON line per finished run: configuration, actions, Prediction(st).    *)
+(*  "failure"  (C13) histories that write to standard output (print, printf,  *)
+(*             print with two arguments), in default, CSV and TSV output mode,*)
+(*             with the writer failing at every byte offset (and never: the   *)
+(*             control in which everything must arrive), the writer being     *)
+(*             plain or a buffered writer of 3, 16 or 4096 bytes.             *)
+(* One JSON line per finished run: configuration, actions, Prediction(st);    *)
+(* for a session: fam = "session", runs = one such record per Execute.        *)
 EXTENDS IOStreams, Json
 
-CONSTANT Family, Depth, Rich
+CONSTANT Family, Depth, Rich, Runs
 
 GFiles == {"f1", "f2"}
 Act(op, name, cls) == [op |-> op, name |-> name, cls |-> cls]
 Pr(dest, name, mode, form, cls) == [op |-> "print", dest |-> dest, name |-> name, mode |-> mode, form |-> form, cls |-> cls]
 
-SandboxCfgs == {[ne |-> a, nw |-> b, nr |-> c, custom |-> d, failAt |-> 0 - 1, buffered |-> FALSE, stdin |-> << <<c_s>> >>, pre |-> {"f1"}] :
+SandboxCfgs == {[ne |-> a, nw |-> b, nr |-> c, custom |-> d, failAt |-> 0 - 1, wkind |-> "plain", omode |-> "default",
+                  stdin |-> << <<c_s>> >>, pre |-> {"f1"}] :
                   a \in BOOLEAN, b \in BOOLEAN, c \in BOOLEAN, d \in BOOLEAN}
-DeliveryCfg == [ne |-> FALSE, nw |-> FALSE, nr |-> FALSE, custom |-> TRUE, failAt |-> 0 - 1, buffered |-> FALSE, stdin |-> <<>>, pre |-> {"f1"}]
-FailureCfgs == {[DeliveryCfg EXCEPT !.failAt = k, !.buffered = b] : k \in 0..(2 * Depth), b \in BOOLEAN}
+DeliveryCfg == [ne |-> FALSE, nw |-> FALSE, nr |-> FALSE, custom |-> TRUE, failAt |-> 0 - 1, wkind |-> "plain", omode |-> "default",
+                stdin |-> <<>>, pre |-> {"f1"}]
+\* a failure at every byte offset (a history of Depth actions writes at most 4 * Depth bytes), and never (-1)
+\* Rich < 2 leaves out the combinations that add least: the 16-byte writer in default mode, and in TSV mode
+\* (which differs from CSV mode in the separator only) the 3-byte and the 4096-byte writer.
+WriterModes == {wm \in WKinds \X OModes :
+                  Rich = 2 \/ (~(wm[2] = "default" /\ wm[1] = "bufio16") /\ ~(wm[2] = "tsv" /\ wm[1] \in {"bufio3", "bufio4096"}))}
+FailureCfgs == {[DeliveryCfg EXCEPT !.failAt = k, !.wkind = wm[1], !.omode = wm[2]] : k \in (0 - 1)..(4 * Depth), wm \in WriterModes}
 
 SandboxMenu(classes) == Menu(GFiles, classes, {"print"})
 \* Rich = 0: the core actions (used for the deepest histories), 1: the standard menu, 2: + printf forms, cat3 readers
@@ -28,7 +44,8 @@ CoreMenu ==
   { Pr("stdout", "", "none", "print", "lit"), Pr("file", "f1", "trunc", "print", "lit"), Pr("file", "f1", "append", "print", "lit"),
     Pr("file", "/dev/stdout", "trunc", "print", "lit"), Pr("cmd", "cat", "pipe", "print", "lit"),
     Act("close", "f1", "lit"), Act("close", "cat", "lit"), Act("fflush", "", "lit"), Act("fflush", "cat", "lit"),
-    Act("getline_file", "f1", "lit"), Act("system", "cat", "lit"), Act("operand", "f1", "lit") }
+    Act("getline_file", "f1", "lit"), Act("system", "cat", "lit"), Act("operand", "f1", "lit"),
+    Pr("cmd", "exit3", "pipe", "print", "lit"), Act("close", "exit3", "lit"), Act("system", "showf1", "lit") }
 StdMenu ==
        {Pr("stdout", "", "none", f, "lit") : f \in (IF Rich = 2 THEN {"print", "printf"} ELSE {"print"})}
   \cup {Pr("file", n, m, "print", "lit") : n \in GFiles, m \in {"trunc", "append"}}
@@ -37,22 +54,26 @@ StdMenu ==
   \cup {Act("close", n, "lit") : n \in GFiles \cup Cmds}
   \cup {Act("fflush", n, "lit") : n \in {"", "cat", "f1"}}
   \cup {Act("system", "cat", "lit"), Act("getline_cmd", "cat", "lit")}
+  \cup {Pr("cmd", "exit3", "pipe", "print", "lit"), Act("close", "exit3", "lit"), Act("system", "showf1", "lit")}
   \cup {Act("getline_file", n, "lit") : n \in GFiles \cup {"-"}}
   \cup {Act("operand", n, "lit") : n \in GFiles}
   \cup (IF Rich = 2 THEN {Pr("file", "f1", "trunc", "printf", "lit"), Pr("cmd", "cat", "pipe", "printf", "lit"),
-                          Act("system", "cat3", "lit"), Act("getline_cmd", "cat3", "lit")} ELSE {})
+                          Act("system", "cat3", "lit"), Act("getline_cmd", "cat3", "lit"),
+                          Act("fflush", "exit3", "lit"), Pr("stdout", "", "none", "print2", "lit")} ELSE {})
 DeliveryMenu == IF Rich = 0 THEN CoreMenu ELSE StdMenu
 FailureMenu ==
-       {Pr("stdout", "", "none", f, "lit") : f \in {"print", "printf"}}
+       {Pr("stdout", "", "none", f, "lit") : f \in {"print", "printf", "print2"}}
   \cup {Pr("file", n, "trunc", "print", "lit") : n \in {"-", "/dev/stdout", "f2"}}
   \cup {Act("fflush", "", "lit"), Act("close", "f2", "lit")}
 
-VARIABLES st, cfg, h
-vars == <<st, cfg, h>>
+\* prev: the finished runs of the session so far, as exported ([cfg, acts, pred]); <<>> in the first run
+VARIABLES st, cfg, h, prev
+vars == <<st, cfg, h, prev>>
 
 Init == /\ cfg \in (CASE Family = "sandbox" -> SandboxCfgs [] Family = "delivery" -> {DeliveryCfg} [] Family = "failure" -> FailureCfgs)
         /\ st = InitState(cfg)
         /\ h = <<>>
+        /\ prev = <<>>
 
 SameName(a, b) == a.op \notin {"exit", "rterror", "finish"} /\ a.name \in SNames /\ b.name = a.name
 
@@ -61,8 +82,27 @@ SameName(a, b) == a.op \notin {"exit", "rterror", "finish"} /\ a.name \in SNames
 IsExec(a) == a.op \in {"system", "getline_cmd"} \/ (a.op = "print" /\ a.dest = "cmd")
 IsPrintf(a) == a.op = "print" /\ a.form = "printf"
 Cheap(S) == IF cfg.ne \/ Rich = 2 THEN S ELSE {a \in S : ~IsExec(a)}
+\* ---- sessions (family "sandbox", Runs >= 2)
+CfgOut(c) == [ne |-> c.ne, nw |-> c.nw, nr |-> c.nr, custom |-> c.custom, failAt |-> c.failAt,
+              wkind |-> c.wkind, omode |-> c.omode, stdin |-> c.stdin, pre |-> c.pre]
+Bits(c) == <<c.ne, c.nw, c.nr, c.custom>>
+NDiff(a, b) == Cardinality({k \in 1..4 : Bits(a)[k] # Bits(b)[k]})
+\* the configuration of the next Execute: different from this one's
+NextCfgs(c) == {d \in SandboxCfgs : IF Rich = 2 THEN d # c ELSE NDiff(c, d) = 1}
+\* first runs worth continuing: nothing, a file written, a file read (each possibly refused by this run's flags)
+WarmUps == {Pr("file", "f2", "trunc", "print", "lit"), Act("getline_file", "f1", "lit")}
+\* what a later run does: one I/O action, or a close() (nothing of the previous run is open any more).  Where
+\* NoExec is off, process-starting actions only after an empty first run under NoExec (the change that matters
+\* for them), unless Rich = 2.
+LaterMenu == {a \in SandboxMenu({"lit"}) : (IsIO(a) \/ a.op = "close") /\ (IsExec(a) => (cfg.ne \/ Rich = 2 \/ (prev[Len(prev)].cfg.ne /\ Len(prev[Len(prev)].acts) = 1)))}
+
 Choices ==
-  IF Family = "sandbox"
+  IF Family = "sandbox" /\ prev # <<>>
+  THEN (IF Len(h) = 0 THEN LaterMenu
+        \* Rich = 2: a second action (no process start) where one thing changed between the configurations
+        ELSE IF Rich = 2 /\ Len(h) = 1 /\ ~IsExec(h[1]) /\ NDiff(prev[Len(prev)].cfg, cfg) = 1
+        THEN {a \in LaterMenu : ~IsExec(a)} ELSE {})
+  ELSE IF Family = "sandbox"
   THEN CASE Len(h) = 0 -> SandboxMenu({"lit", "computed"}) \cup Menu(GFiles, {"lit"}, {"printf"})   \* printf is an opcode of its own
          [] Len(h) = 1 -> IF h[1].cls = "lit" /\ ~IsPrintf(h[1]) /\ (cfg.ne \/ Rich = 2 \/ ~IsExec(h[1])) THEN Cheap(SandboxMenu({"lit"})) ELSE {}
          [] Len(h) = 2 -> IF IsIO(h[1]) /\ h[2].op = "close" /\ SameName(h[1], h[2])
@@ -73,11 +113,11 @@ Choices ==
 
 TheEndings == IF Family = "sandbox" THEN {[op |-> "finish"]} ELSE Endings
 
+RunRec(s2, h2) == [cfg |-> CfgOut(cfg), acts |-> h2, pred |-> Prediction(s2)]
 Export(s2, h2) ==
-  PrintT(ToJson([fam |-> Family,
-                 cfg |-> [ne |-> cfg.ne, nw |-> cfg.nw, nr |-> cfg.nr, custom |-> cfg.custom, failAt |-> cfg.failAt,
-                          buffered |-> cfg.buffered, stdin |-> cfg.stdin, pre |-> cfg.pre],
-                 acts |-> h2, pred |-> Prediction(s2)]))
+  IF prev = <<>>
+  THEN PrintT(ToJson([fam |-> Family, cfg |-> CfgOut(cfg), acts |-> h2, pred |-> Prediction(s2)]))
+  ELSE PrintT(ToJson([fam |-> "session", runs |-> Append(prev, RunRec(s2, h2))]))
 
 \* one more action; a run that ends by itself (refusal, name conflict) is exported at once
 Do == /\ st.result = "run" /\ Len(h) < Depth
@@ -86,7 +126,7 @@ Do == /\ st.result = "run" /\ Len(h) < Depth
            /\ st' = Apply(st, act)
            /\ h' = Append(h, act)
            /\ st'.result # "run" => Export(st', h')
-           /\ UNCHANGED cfg
+           /\ UNCHANGED <<cfg, prev>>
 
 \* the run ends here (every prefix is a history of its own)
 \* (random walks, Depth > 4, only export the longer histories)
@@ -98,8 +138,22 @@ Stop == /\ st.result = "run" /\ Len(h) >= MinStop
              /\ h' = Append(h, act)
              /\ (Family = "failure" => (cfg.failAt <= Len(st'.swritten) /\ st'.swritten # <<>>))
              /\ Export(st', h')
-             /\ UNCHANGED cfg
+             /\ UNCHANGED <<cfg, prev>>
 
-Next == Do \/ Stop
+\* the next Execute on the same Interpreter: the short run so far ends normally here (or has been ended by a
+\* refusal), and a run with another configuration follows
+IsEnding(a) == a.op \in {"finish", "exit", "rterror"}
+Continue ==
+  /\ Family = "sandbox" /\ Len(prev) + 1 < Runs
+  /\ h = <<>> \/ (Len(h) = 1 /\ h[1] \in WarmUps)
+  /\ LET sEnd == IF st.result = "run" THEN Apply(st, [op |-> "finish"]) ELSE st
+         hEnd == IF st.result = "run" THEN Append(h, [op |-> "finish"]) ELSE h
+     IN \E c \in NextCfgs(cfg) :
+          /\ prev' = Append(prev, RunRec(sEnd, hEnd))
+          /\ cfg' = c
+          /\ st' = NextRun(sEnd, c)
+          /\ h' = <<>>
+
+Next == Do \/ Stop \/ Continue
 Spec == Init /\ [][Next]_vars
 =============================================================================
